@@ -239,7 +239,13 @@ func runReplay(b behaviour) caseResult {
 			want := appPark[s.A]
 			p, ok := e.ctl.waitPark(s.P, since, w.idle, stepTimeout)
 			if !ok {
-				return fmt.Sprintf("step %d %s %s: neither parked nor returned within %v", i, s.P, s.A, stepTimeout)
+				// the specification says this step is enabled, the real goroutine is blocked on a channel / lock
+				var bs []string
+				for _, g := range clientGoroutines() {
+					bs = append(bs, brief(g))
+				}
+				return fmt.Sprintf("BLOCKED step %d %s %s: neither parked nor returned within %v although the specification allows the step; client goroutines: %s",
+					i, s.P, s.A, stepTimeout, strings.Join(bs, " || "))
 			}
 			got := ""
 			if p != nil {
@@ -354,6 +360,10 @@ func runReplay(b behaviour) caseResult {
 	callErr.Range(func(k, v any) bool { errs[k.(string)] = v.(string); return true })
 	if len(errs) > 0 {
 		obs["call_errors"] = errs
+	}
+	if strings.HasPrefix(drift, "BLOCKED") {
+		// takes precedence over whatever the free run shows: the code blocked earlier than the as-is model says
+		res.Status, res.Key, res.Detail = "violation", "api-call-blocked-where-specification-allows-progress", drift
 	}
 	if res.Status == "ok" {
 		switch {
